@@ -363,6 +363,17 @@ pub fn arena_take(parent: (usize, usize), taken: (usize, usize), rem: (usize, us
     let Some(s) = g.as_mut() else { return };
     let tid = id.unwrap_or(usize::MAX);
     s.rep.takes += 1;
+    if std::env::var("SIM_TRACE_TAKES").is_ok() {
+        let base = s.arena.map(|a| a.0).unwrap_or(0);
+        eprintln!(
+            "take tid={tid} parent=[{}, +{}) taken=[{}, +{}) rem=+{}",
+            parent.0 as i64 - base as i64,
+            parent.1,
+            taken.0 as i64 - base as i64,
+            taken.1,
+            rem.1
+        );
+    }
     let mut bad: Option<String> = None;
     let (pa, pl) = parent;
     let (ta, tl) = taken;
